@@ -13,7 +13,9 @@ ops:  ["enter", mode, [[var, val], ...]]   mode 0: runtime.push_thread_bindings 
                                            try body / finally runtime.pop_thread_bindings()
                                            (exactly what the macro expands to);
                                            mode 1: the compiled core macro `binding`;
-                                           mode 2: core `with-bindings*` on a real map
+                                           mode 2: core `with-bindings*` on a real map;
+                                           mode 3: `with runtime.bindings({...}):` (the context
+                                           manager the compiler / importer / CLI use)
       ["leave", exc]                       return from the body / throw out of the body
       ["set", var, val]                    compiled (set! var val)
       ["noop"]
@@ -111,6 +113,9 @@ def run_form(mode, pairs, body):
             rt.pop_thread_bindings()
     if mode == 1:
         return binding_fn(tuple(v for v, _ in pairs))(*[x for _, x in pairs], body)
+    if mode == 3:
+        with rt.bindings({vs[v]: x for v, x in pairs}):      # the Python-level context manager
+            return body()
     from basilisp.lang import map as lmap
     return S["with-bindings*"](lmap.map({vs[v]: x for v, x in pairs}), body)
 
